@@ -422,6 +422,7 @@ func (fr *Frame) appendOp(cx *callCtx) Term {
 		return vc.fresh("appendstr", "Slice")
 	}
 	n := fmt.Sprintf("(s_len %s)", xs)
+	fr.appendStatic = cx.staticSliceLen(1)
 	newLen := vc.name("applen", "Int", fmt.Sprintf("(+ (s_len %s) %s)", s, n))
 	inPlace := fmt.Sprintf("(<= %s (s_cap %s))", newLen, s)
 	fresh := e.newObj(st)
@@ -471,6 +472,12 @@ func (fr *Frame) appendCells(st *State, c string, boxed bool, fieldIdx int, s, x
 		s, old, cell(s, "j"),
 		old, cell(xs, fmt.Sprintf("(- j (s_len %s))", s)),
 		cell(res, "j")))
+	// ground instances for explicit arguments (append(s, x, y)): gives E-matching the new elements' terms
+	if k := fr.appendStatic; k >= 0 && k <= 4 {
+		for j := 0; j < k; j++ {
+			vc.assumeIf(st.pc, fmt.Sprintf("(= (select %s %s) (select %s %s))", nw, cell(res, fmt.Sprintf("(+ (s_len %s) %d)", s, j)), old, cell(xs, fmt.Sprint(j))))
+		}
+	}
 	// frame: everything that is not one of the appended cells keeps its value
 	var inRes Term
 	if boxed && fieldIdx >= 0 {
